@@ -184,7 +184,7 @@ func alphabet() []req {
 		r.Arg, r.postAuth = s, true
 	}
 	for _, shape := range []string{"garbage", "empty", "hash-latest-nonce", "hash-first-nonce",
-		"hash-nonce-of-B", "wrong-password", "unknown-user-empty-passhash", "token-of-B", "token-obtained-by-A"} {
+		"hash-nonce-of-B", "wrong-password", "unknown-user-empty-passhash", "user-without-passhash", "token-of-B", "token-obtained-by-A"} {
 		r := add("Auth("+shape+")", commands.Auth, "auth", nil)
 		r.Arg, r.postAuth = shape, true
 	}
@@ -345,6 +345,9 @@ func newExec() *exec {
 	}
 	adm("create users (user, passhash) key(user)")
 	act("insert { user: '" + user + "', passhash: '" + passhash + "' } into users")
+	// an account without a password hash (created before its password is set, or
+	// disabled by clearing the hash): sha1(nonce) needs no secret, nobody may log in as it
+	act("insert { user: 'guest', passhash: '' } into users")
 	adm("create stdlib (name, group, text, num, parent) key(name, group)")
 	act("insert { name: 'Foo', group: -1, text: 'function () { 123 }', num: 1 } into stdlib")
 	adm("create data (k, v) key(k)")
@@ -464,6 +467,9 @@ func (x *exec) authArg(which byte, shape string) string {
 	case "unknown-user-empty-passhash":
 		// a user that is not in the users table; the "password hash" of nobody
 		return authString("mallory", "", latest(cm))
+	case "user-without-passhash":
+		// a user that IS in the users table but has no password hash
+		return authString("guest", "", latest(cm))
 	case "token-of-B":
 		return x.tokenB
 	case "token-obtained-by-A":
